@@ -90,9 +90,10 @@ func worker(p *props.Prop) {
 // property's workload it is observed, into a violation of clause "context"
 // (evaluation context not restored / not quiescent) carrying the offending call.
 func installFaultSink(c *h.Ctx) {
+	h.EntryMonitor = true
 	h.FaultSink = func(entry string, p *path.Path, doc any, o h.Opts, faults []string) {
 		kind := "other"
-		for _, k := range []string{"verbose", "current", "root", "innermostArraySize", "ignoreStructuralErrors", "baseObject", "useTZ"} {
+		for _, k := range []string{"verbose", "current", "root", "innermostArraySize", "ignoreStructuralErrors", "baseObject", "useTZ", "options-slice-written", "entry-points-disagree", "context-replaced", "options-not-independent"} {
 			if strings.Contains(faults[0], k) {
 				kind = k
 				break
